@@ -36,6 +36,17 @@ var c09ySpellings = []c09ySpelling{
 	{"X:real-ip", 0, func(r *http.Request) { r.RemoteAddr = "172.16.0.9:4"; r.Header.Set("X-Real-IP", "10.1.1.1") }},
 	{"Y:remote-v6", 1, func(r *http.Request) { r.RemoteAddr = "[2001:db8::7]:443" }},
 	{"Y:xff-v6", 1, func(r *http.Request) { r.RemoteAddr = "172.16.0.9:5"; r.Header.Set("X-Forwarded-For", "2001:db8::7") }},
+	// front proxies that write the source port along, or put an IPv6 address in brackets
+	{"X:xff-port", 0, func(r *http.Request) {
+		r.RemoteAddr = "172.16.0.9:6"
+		r.Header.Set("X-Forwarded-For", "10.1.1.1:50123")
+	}},
+	{"X:real-ip-port", 0, func(r *http.Request) { r.RemoteAddr = "172.16.0.9:7"; r.Header.Set("X-Real-IP", "10.1.1.1:40000") }},
+	{"Y:xff-v6-port", 1, func(r *http.Request) {
+		r.RemoteAddr = "172.16.0.9:8"
+		r.Header.Set("X-Forwarded-For", "[2001:db8::7]:8443")
+	}},
+	{"Y:xff-v6-bracketed", 1, func(r *http.Request) { r.RemoteAddr = "172.16.0.9:9"; r.Header.Set("X-Forwarded-For", "[2001:db8::7]") }},
 }
 
 type c09yArr struct {
